@@ -34,6 +34,8 @@ HEAVY_CASES = True
 
 
 def COST(desc):
+    if desc.get("k") == "tree":
+        return 40 * desc["n"]
     return desc["n"] ** 2 * (4 if ("evolve" in desc["shard"] or "optimize" in desc["shard"]) else 1)
 
 
@@ -66,6 +68,7 @@ def cases(tier, seed):
                 yield {"fam": fam, "n": n, "sector": sec, "depth": 2, "shard": a.name}
             else:
                 yield {"fam": fam, "n": n, "sector": sec, "depth": depth, "shard": a.name}
+    yield from tree_cases(tier)
 
 
 @functools.lru_cache(maxsize=8)
@@ -254,6 +257,8 @@ def make_invariants(ch):
 
 
 def run_case(desc, seed):
+    if desc.get("k") == "tree":
+        return run_tree(desc, seed)
     fam, n, sec = desc["fam"], desc["n"], tuple(desc["sector"])
     ch = _chain(fam, n, seed)
     st0, acts = build(fam, n, sec, seed)
@@ -279,6 +284,225 @@ def run_case(desc, seed):
             "viol": list(viol.values()), "counters": {"disabled_transitions": stats.get("disabled", 0), "aborted_dynamic": aborted},
             "outcome": "viol" if viol else "ok",
             "sample": {"desc": desc, "states": len(stats.get("states", [])), "transitions": tr}}
+
+
+# ----------------------------------------------------------------------------------------------- trees
+
+def tree_label_violation(t, basis_sets_of, tol=1e-10):
+    """largest |entry| (relative to the largest entry of the tensor) that the stored labels forbid:
+    for every node   sum(labels of the child bonds) + sum(sigma of the physical indices) == label of the parent bond,
+    the root's single parent label being qntot.  Returns (value, description)"""
+    worst, where = 0.0, ""
+    for inode, node in enumerate(t.node_list):
+        ten = np.asarray(node.tensor)
+        qsz = np.asarray(node.qn).shape[-1]
+        shape = ten.shape
+        parts = [np.asarray(ch.qn) for ch in node.children] + [np.asarray(b.sigmaqn).reshape(b.nbas, -1) for b in basis_sets_of(node)]
+        if len(parts) + 1 != ten.ndim:
+            return np.inf, f"node {inode}: tensor rank {ten.ndim} but {len(parts)} child/physical indices + parent"
+        tot = np.zeros((1,) * (ten.ndim - 1) + (qsz,), dtype=int)
+        for ax, q in enumerate(parts):
+            if q.shape[0] != shape[ax]:
+                return np.inf, f"node {inode}: index {ax} has dimension {shape[ax]} but {q.shape[0]} labels"
+            sh = [1] * (ten.ndim - 1) + [qsz]
+            sh[ax] = q.shape[0]
+            tot = tot + q.reshape(sh)
+        pq = np.asarray(node.qn)
+        if pq.shape[0] != shape[-1]:
+            return np.inf, f"node {inode}: parent bond has dimension {shape[-1]} but {pq.shape[0]} labels"
+        allowed = np.all(tot[..., None, :] == pq.reshape((1,) * (ten.ndim - 1) + pq.shape), axis=-1)
+        scale = np.abs(ten).max()
+        if scale == 0:
+            continue
+        bad = np.abs(ten)[~allowed].max() / scale if (~allowed).any() else 0.0
+        if bad > worst:
+            worst, where = bad, f"node {inode} (shape {shape})"
+    return worst, where
+
+
+TREE_FAMS = {"elec3": ("elec", 3), "eph3": ("eph", 3), "two3": ("two", 3)}
+
+
+def tree_cases(tier):
+    from mc.space import plane_trees
+    from mc import trees as TR
+    quick = tier == "quick"
+    for famname in (("elec3", "two3") if quick else ("elec3", "eph3", "two3")):
+        fam, m = TREE_FAMS[famname]
+        for N in range(1, (3 if quick else 4) + 1):
+            for parent in plane_trees(N):
+                dists = [d for d in TR.distributions(m, N)]
+                if quick:
+                    # quick: one canonical distribution per occupancy pattern (which nodes are empty / how many sets per node)
+                    seen, keep = set(), []
+                    for d in dists:
+                        k = tuple(len(g) for g in d)
+                        if k not in seen:
+                            seen.add(k)
+                            keep.append(d)
+                    dists = keep
+                elif N >= 4:
+                    dists = [d for d in dists if max(len(g) for g in d) <= 1]
+                for dist in dists:
+                    for sec in sectors(fam, m):
+                        if quick and famname == "two3" and sec not in ([1, 1], [1, 0], [2, 1]):
+                            continue
+                        if quick and famname == "two3" and N == 3 and max(len(g) for g in dist) > 1:
+                            continue
+                        yield {"k": "tree", "fam": famname, "parent": parent, "groups": [list(g) for g in dist], "sector": sec, "n": N,
+                               "depth": 2, "shard": "tree", "few_numerical": quick}
+
+
+def run_tree(desc, seed):
+    from checks import c11_ttns as C11
+    from mc import trees as TR
+    from mc.budget import rhs_budget, BudgetExceeded
+    from mc.ref.dense import sector_projector
+    from renormalizer.utils import EvolveConfig, EvolveMethod, CompressConfig, CompressCriteria
+    fam, m = TREE_FAMS[desc["fam"]]
+    viol = {}
+    tag = f"[tree {desc['fam']} parent={desc['parent']} groups={desc['groups']} sector={desc['sector']}]"
+    try:
+        c0 = C11.make_ctx(desc, seed)
+    except FloatingPointError:
+        return {"skipped": 1, "outcome": "random-state-construction-failed"}
+    charge = np.array(raising_charge(fam))
+    sig_list = [np.asarray(b.sigmaqn) for b in c0.basis]
+    c0.sec = {"a": np.array(desc["sector"]), "b": np.array(desc["sector"])}
+    transitions = states = 0
+    aborted = 0
+    maxbond = 1
+
+    def basis_sets_of(t):
+        return lambda node: t.tn2bn[node].basis_sets
+
+    def add(sig, msg):
+        if sig not in viol:
+            viol[sig] = {"sig": sig, "msg": msg}
+
+    def check(c, trace):
+        ok = True
+        for r in ("a", "b"):
+            t = getattr(c, r)
+            last = trace[-1] if trace else "initial"
+            try:
+                d = TR.dense_state(t, c.order)
+            except Exception as e:
+                add(f"C06:tree:exception-in-observer:{type(e).__name__}", f"{tag} trace={trace}: {e!r}")
+                return False
+            nrm = np.linalg.norm(d)
+            if nrm == 0 or not np.all(np.isfinite(d)):
+                return False
+            want = c.sec[r]
+            mask = sector_projector(sig_list, want)
+            out = np.linalg.norm(d[~mask]) / nrm
+            if out > 1e-10:
+                add(f"C06:tree:outside-sector:{last}", f"{tag} trace={trace}: register {r} has relative amplitude {out:.2e} outside sector {want.tolist()}")
+                ok = False
+            if np.any(np.asarray(t.qntot) != want):
+                add(f"C06:tree:qntot:{last}", f"{tag} trace={trace}: register {r} stores qntot {np.asarray(t.qntot).tolist()}, expected {want.tolist()}")
+                ok = False
+            v, where = tree_label_violation(t, basis_sets_of(t))
+            if v > 1e-10:
+                add(f"C06:tree:label:{last}", f"{tag} trace={trace}: register {r}: entry of relative size {v:.2e} in a block the stored labels forbid, {where}")
+                ok = False
+        return ok
+
+    def extra_actions(c):
+        E = {}
+        for scheme, method in (("pc", EvolveMethod.prop_and_compress_tdrk4), ("ps", EvolveMethod.tdvp_ps), ("ps2", EvolveMethod.tdvp_ps2), ("vmf", EvolveMethod.tdvp_vmf)):
+            for timek, dt in (("real", 0.1), ("imag", -0.1j)):
+                if desc.get("few_numerical") and (scheme, timek) not in (("pc", "real"), ("ps", "imag"), ("ps2", "real"), ("vmf", "real")):
+                    continue
+                def ev(method=method, dt=dt):
+                    c.a.canonicalise()
+                    c.a.evolve_config = EvolveConfig(method, force_ovlp=False, ivp_rtol=1e-4, ivp_atol=1e-7)
+                    c.a.compress_config = CompressConfig(CompressCriteria.fixed, max_bonddim=4)
+                    with rhs_budget(3000):
+                        c.a = c.a.evolve(c.H, dt)
+                E[f"a=a.evolve[{scheme},{timek}]"] = ev
+
+        def trunc():
+            if len(c.parent) == 1:
+                raise C11.Skip()
+            c.a.canonicalise()
+            c.a.compress_config = CompressConfig(CompressCriteria.fixed, max_bonddim=1)
+            c.a.compress()
+        E["a.compress(M=1)"] = trunc
+
+        def opt():
+            from renormalizer.tn.gs import optimize_ttns
+            if len(c.parent) == 1:
+                raise C11.Skip()
+            c.a.canonicalise()
+            optimize_ttns(c.a, c.H, procedure=[[3, 0.3], [4, 0]])
+        E["optimize_ttns(a)"] = opt
+        return E
+
+    base_names = list(C11.actions(c0))
+    extra_names = list(extra_actions(c0))
+    names = base_names + extra_names
+
+    def clone_ctx(c):
+        c2 = C11.Ctx()
+        c2.__dict__.update(c.__dict__)
+        c2.a, c2.b = TR.clone_ttns(c.a), TR.clone_ttns(c.b)
+        c2.sh = {k: v.copy() for k, v in c.sh.items()}
+        c2.sec = {k: v.copy() for k, v in c.sec.items()}
+        return c2
+
+    def do(c, nm, trace):
+        nonlocal transitions, states, aborted, maxbond
+        acts = dict(C11.actions(c))
+        acts.update(extra_actions(c))
+        try:
+            acts[nm]()
+        except C11.Skip:
+            return False
+        except BudgetExceeded:
+            aborted += 1
+            return False
+        except Exception as e:
+            import sys
+            import traceback
+            tb = traceback.extract_tb(sys.exc_info()[2])
+            lib = [f.name for f in tb if "/renormalizer/" in f.filename]
+            if isinstance(e, AssertionError) and lib and lib[-1] in ("compress_recursion", "add", "check_canonical"):
+                return False          # explicit refusals
+            if lib and lib[-1] in LABEL_FRAMES_TREE:
+                add(f"C06:tree:exception:{type(e).__name__}:{lib[-1]}", f"{tag} trace={trace + [nm]}: {e!r}")
+            else:
+                aborted += 1          # accuracy / robustness of the numerical drivers is owned by C08 / C11 / C12
+            return False
+        transitions += 1
+        states += 1
+        if nm == "a=P.apply(a)":
+            c.sec["a"] = c.sec["a"] + charge
+        if not check(c, trace + [nm]):
+            return False
+        maxbond = max(maxbond, max(list(c.a.bond_dims) or [1]))
+        return True
+
+    if not check(c0, []):
+        return {"nontrivial": True, "viol": list(viol.values()), "outcome": "tree:viol"}
+
+    def dfs(c, trace, d):
+        if d >= desc["depth"]:
+            return
+        for nm in names:
+            if d > 0 and nm in extra_names and trace[-1] in extra_names:
+                continue      # two expensive numerical steps in a row add nothing to the label bookkeeping
+            c2 = clone_ctx(c)
+            if do(c2, nm, trace):
+                dfs(c2, trace + [nm], d + 1)
+    dfs(c0, [], 0)
+    return {"nontrivial": transitions > 0 and (maxbond > 1 or len(desc["parent"]) == 1), "states": states, "transitions": transitions,
+            "viol": list(viol.values()), "counters": {"tree_aborted_dynamic": aborted}, "outcome": "tree:viol" if viol else "tree:ok",
+            "sample": {"desc": desc, "transitions": transitions}}
+
+
+LABEL_FRAMES_TREE = {"get_qnmat", "get_qnmask", "svd_qn", "eigh_qn", "get_qn_mask", "add_outer", "compress_node", "decompose_to_parent", "decompose_to_child",
+                     "update_2site", "truncate_tensors", "merge_to_parent", "merge_to_child"}
 
 
 def _generic(name):
